@@ -265,3 +265,58 @@ def _set_mtime(env, path, mtime):
 
         sec = int(mtime)  # integer arithmetic: mtime * 1e9 in floating point is only accurate to ~256 ns at today's epoch values
         os.utime(path, ns=(sec * 1_000_000_000, sec * 1_000_000_000 + round((mtime - sec) * 1e9)))
+
+
+# ---------------------------------------------------------------------------------------------------------
+LEGACY_FILES = {"t.txt": [b"one\r\ntwo\r\n", b"one\ntwo\n"], "s/u.txt": [b"x\r\n", b"\r\n\r\n"]}
+
+
+def h_legacy(v0: bool, v1: bool, batched: bool, kk: bool, relink: bool) -> bool:
+    """
+    post: _
+    """
+    # hashes recorded by a checkout out of a legacy (md5-dos2unix) store sharing the state: a later md5 query for the checked-out files
+    # must return the md5 of their bytes (entries recorded for the legacy algorithm are not md5 hits)
+    from dvc_data.hashfile import load
+    from dvc_data.hashfile.checkout import checkout
+    from dvc_data.hashfile.transfer import transfer
+
+    sel = [1 if B(v0) else 0, 1 if B(v1) else 0]
+    files = {k: v[s] for (k, v), s in zip(LEGACY_FILES.items(), sel)}
+    env = make_env()
+    try:
+        st = env.state()
+        fs = env.fs
+        with NoTracing():
+            for k, v in files.items():
+                env.write(env.p("src", k), v)
+            legacy = env.local_odb("legacy", hash_name="md5-dos2unix", state=st, type=[cube("link", "copy")])
+            staging, _, obj = build(legacy, env.p("src"), fs, "md5-dos2unix")
+            transfer(staging, legacy, {obj.hash_info}, shallow=False)
+        ws = env.p("ws")
+        try:
+            tree = load(legacy, obj.hash_info)
+            checkout(ws, fs, tree, legacy, state=st, relink=B(relink))
+            which = "s/u.txt" if B(kk) else "t.txt"
+            path = ws + "/" + which
+            if B(batched):
+                paths = [ws + "/t.txt", ws + "/s/u.txt"]
+                res = _get_hashes(paths, fs, "md5", {p: fs.info(p) for p in paths}, state=st)
+                got = res[path][1].value
+            else:
+                got = hash_file(path, fs, "md5", state=st)[1].value
+        except HarnessGap:
+            raise
+        except Exception as e:  # noqa: BLE001
+            violation("query-raised", ("legacy-checkout", f"{type(e).__name__}: {e}"))
+            return True
+        with NoTracing():
+            data = env.read(path)
+            if data != files[which]:
+                violation("checkout-changed-bytes", which)
+            if got != hashlib.md5(data).hexdigest():
+                violation("stale-hash-served", ("after-legacy-checkout", which, got, hashlib.md5(data).hexdigest()))
+        journal({"sel": sel, "batched": bool(batched), "which": which}, nontrivial=True)
+        return True
+    finally:
+        env.close()
